@@ -788,6 +788,11 @@ impl OrdSpecImpl for Version { open spec fn obeys_cmp_spec() -> bool { true } op
             if mm.start() < pos:
                 continue
             e = match_brace(code, mm.end() - 1)
+            lit = code[mm.start():e]
+            # what R16 drops must be a plain struct literal: no control flow, no call that can panic or return on its own account
+            bad_tok = re.search(r'\b(?:return|break|continue|loop|while|for|match|unsafe)\b|\?|\w+!\s*[\(\[{]|\.unwrap\(|\.expect\(|\bVersion::|\bRange::|\bparse\b', lit)
+            if bad_tok:
+                raise AnchorLost('a `SemverError { .. }` literal that is more than a struct literal (`%s`): R16 would drop behaviour' % bad_tok.group(0))
             out.append(rest[pos:mm.start()])
             out.append('verif_semver_error()')
             pos = e
@@ -823,6 +828,11 @@ impl OrdSpecImpl for Version { open spec fn obeys_cmp_spec() -> bool { true } op
             if mm.start() < pos:
                 continue
             e = match_brace(code, mm.end() - 1)
+            lit = code[mm.start():e]
+            # what R16 drops must be a plain struct literal: no control flow, no call that can panic or return on its own account
+            bad_tok = re.search(r'\b(?:return|break|continue|loop|while|for|match|unsafe)\b|\?|\w+!\s*[\(\[{]|\.unwrap\(|\.expect\(|\bVersion::|\bRange::|\bparse\b', lit)
+            if bad_tok:
+                raise AnchorLost('a `SemverError { .. }` literal that is more than a struct literal (`%s`): R16 would drop behaviour' % bad_tok.group(0))
             out.append(rest[pos:mm.start()])
             out.append('verif_semver_error()')
             pos = e
@@ -1173,6 +1183,31 @@ def source_shape(g, LIB, RNG):
         if not any(f == 'src/range.rs' and a <= ln <= b for (f, a, b) in spans):
             bad.append('[range] src/range.rs:%d: a BoundSet / Range is built outside the functions under contract (`%s`)' % (ln, line.strip()[:70]))
 
+    # S2b the only conditional `use` is the serde import; S10 the only macros defined in the crate are the three known ones (a local
+    # `macro_rules! write` / `vec` / `assert` would change what the verified text means), no #[macro_use]; S11 Cargo.toml does not redirect the library
+    for (nm, code) in (('src/lib.rs', lib), ('src/range.rs', rng)):
+        for m in re.finditer(r'#\[cfg\([^\]]*\)\]\s*(?:#\[[^\]]*\]\s*)*use\s+([^;]*);', code):
+            if not re.fullmatch(r'serde::\{de::Deserializer, ser::Serializer, Deserialize, Serialize\}', ' '.join(m.group(1).split())):
+                bad.append('%s: a conditional `use` other than the serde import: `%s`' % (nm, ' '.join(m.group(1).split())[:60]))
+        for m in re.finditer(r'\bmacro_rules!\s*(\w+)', code):
+            if m.group(1) not in ('impl_from_unsigned_for_version', 'impl_from_signed_for_version', 'create_tests_for'):
+                bad.append('%s: a macro defined in the crate (`%s!`): it can shadow a std macro the extracted text uses' % (nm, m.group(1)))
+        if re.search(r'#\[macro_use\]|\bmacro\s+\w+\s*\(', code):
+            bad.append('%s: #[macro_use] / a `macro` item' % nm)
+    n_lib, n_rng = len(re.findall(r'\buse\s+winnow\b', lib)), len(re.findall(r'\buse\s+winnow\b', rng))
+    if n_lib != 6 or n_rng != 5:
+        bad.append('the number of `use winnow..` items changed (lib.rs %d, range.rs %d; 6 and 5 expected): a combinator name may mean something else' % (n_lib, n_rng))
+    try:
+        cargo = open(os.path.join(g.repo, 'Cargo.toml')).read()
+        mlib = re.search(r'^\[lib\](.*?)(?=^\[|\Z)', cargo, re.M | re.S)
+        if mlib and re.search(r'^\s*path\s*=', mlib.group(1), re.M):
+            bad.append('Cargo.toml redirects the library source (`[lib] path = ..`)')
+        if re.search(r'^\s*build\s*=|^\[features\][^\[]*\bdefault\s*=\s*\[\s*"', cargo, re.M) and not re.search(r'^default\s*=\s*\[\s*\]', cargo, re.M):
+            mdef = re.search(r'^default\s*=\s*\[([^\]]*)\]', cargo, re.M)
+            if mdef and mdef.group(1).strip():
+                bad.append('Cargo.toml: default features are not empty (`%s`): Verus and the stand-in see one configuration' % mdef.group(1).strip()[:40])
+    except Exception:
+        pass
     # S8 (version grammar, C05): the names the grammar functions call resolve to winnow's items (the assumed contracts A15 are about
     # those), the two limits have the values the reference grammar and the stand-in are written for, FromStr delegates to parse
     WINNOW_NAMES = {'ascii': ('digit1', 'space0'), 'combinator': ('alt', 'eof', 'opt', 'preceded', 'separated', 'terminated'), 'token': ('literal', 'take_while'), 'stream': ('AsChar',), '': ('PResult', 'Parser')}
